@@ -768,6 +768,62 @@ def run_raw_operands(ctx):
     ctx.ev('raw-operand', 0)
 
 
+def run_zero_divisors(ctx):
+    """Division with exact +-0.0 entries in the divisor (and 0/0): entry-wise IEEE results (+-inf, nan) exactly where NumPy
+    puts them - in particular nothing of the previous contents of the output survives at those entries."""
+    rng = ctx.rng('zero-divisors')
+    idx = 0
+    for tag, sp in spaces_for_api(ctx):
+        kind, dt = _leaf_kind(sp)
+        if kind != 'f':
+            continue      # (complex division by zero has no single IEEE answer: inf / nan component patterns differ between routines)
+        n = sum(int(np.prod(l.shape)) for _p, l in util.leaves(sp))
+        forms = [('x/y', lambda x, y: x / y), ('x/=y', lambda x, y: x.__itruediv__(y)),
+                 ('divide(x,y,out)', lambda x, y: sp.divide(x, y, out=util.fill(sp.element(), 'rnd', rng))),
+                 ('divide(x,y,out=x)', lambda x, y: sp.divide(x, y, out=x)), ('divide(x,y,out=y)', lambda x, y: sp.divide(x, y, out=y)),
+                 ('x.divide(y)', lambda x, y: x.divide(y))]
+        for name, fn in forms:
+            idx += 1
+            if not ctx.mine(idx):
+                continue
+            x = rel(sp, rng)
+            y = rel(sp, rng, nozero=True)
+            # plant +0.0, -0.0 in the divisor, and zeros in the dividend at some of the same places
+            for (_p, ly), (_q, lx) in zip(_leaf_arrays(y), _leaf_arrays(x)):
+                if ly.size == 0:
+                    continue
+                flat_y, flat_x = ly.reshape(-1), lx.reshape(-1)
+                if not np.shares_memory(flat_y, ly) or not np.shares_memory(flat_x, lx):
+                    continue
+                pos = rng.choice(ly.size, size=max(1, min(ly.size, 5)), replace=False)
+                for k, j in enumerate(pos):
+                    flat_y[j] = [0.0, -0.0][k % 2]
+                    if k % 3 == 2:
+                        flat_x[j] = 0.0
+            X, Y = _flat(sp, x).copy(), _flat(sp, y).copy()
+            if not (Y == 0).any():
+                ctx.skip('no zero could be planted (non-writeable / non-contiguous leaves)')
+                continue
+            with np.errstate(all='ignore'):
+                R = X / Y
+            comp = 'api:' + name
+            cfg = '%s;%s;zero-divisor' % (util.space_tag(sp), util.size_regime(n))
+            ctx.case('zero-divisor;%s;%s' % (name, tag), 0)
+            ctx.ev('api-differential')
+            try:
+                with np.errstate(all='ignore'):
+                    r = fn(x, y)
+                got = _flat(sp, r)
+                special = ~np.isfinite(R)
+                ok = bool(np.array_equal(np.isnan(got), np.isnan(R)) and np.array_equal(got[np.isinf(R)], R[np.isinf(R)]))
+                if ok and (~special).any():
+                    ok = _tol_ok(got[~special], R[~special].astype(_hi(kind)), np.abs(R[~special]).astype(_hi(kind)), dt, ulps=8)
+                if not ok:
+                    ctx.violation(comp, cfg, 'wrong-value', got=got[special][:6].astype(complex), ref=R[special][:6].astype(complex))
+            except Exception as e:
+                ctx.violation(comp, cfg, 'raises:' + type(e).__name__, message=str(e)[:200])
+
+
 def _leaf_arrays(x):
     if hasattr(x, 'parts'):
         for i, p in enumerate(x.parts):
@@ -800,6 +856,7 @@ def run(ctx):
     run_lincomb_lattice(ctx, con)
     run_api(ctx, con)
     run_raw_operands(ctx)
+    run_zero_divisors(ctx)
     if ctx.thorough and ctx.shard == 0 and ctx.round == 0:
         # W-ambient: the contract on every lincomb / multiply / divide the repository's own suite executes
         from .c03 import ambient_suite
